@@ -5,7 +5,7 @@ use std::path::{Path, PathBuf};
 use diagnostics::Diagnostics;
 use sha2::Digest;
 
-use crate::artifact::{CoreUnit, InterfaceUnit, PackageExports};
+use crate::artifact::{COMPILER_ABI, CoreUnit, FORMAT_VERSION, InterfaceUnit, PackageExports};
 use crate::env::{Gensym, GlobalTypeEnv};
 use crate::go::{self, compile::GlobalGoEnv, goast};
 use crate::hir;
@@ -80,6 +80,14 @@ fn load_interface_from_paths(
                 candidate.display(),
                 unit.package,
                 package
+            )));
+        }
+        if unit.format_version != FORMAT_VERSION || unit.compiler_abi != COMPILER_ABI {
+            return Err(compile_error(format!(
+                "interface {} was written by an incompatible compiler (format_version {}, compiler_abi {})",
+                candidate.display(),
+                unit.format_version,
+                unit.compiler_abi
             )));
         }
         if !unit.validate_hash() {
